@@ -28,7 +28,11 @@ func main() {
 	if len(os.Args) > 2 {
 		outTxt = os.Args[2]
 	}
-	mods, _ := filepath.Glob("/repo/modules/*")
+	repo := os.Getenv("VERIF_REPO") // testing aid: another checkout of the repository; default /repo
+	if repo == "" {
+		repo = "/repo"
+	}
+	mods, _ := filepath.Glob(repo + "/modules/*")
 	counts := map[site]int{}
 	for _, m := range mods {
 		cfg := &packages.Config{Mode: packages.NeedName | packages.NeedFiles | packages.NeedCompiledGoFiles | packages.NeedSyntax | packages.NeedTypes | packages.NeedTypesInfo | packages.NeedImports,
@@ -47,7 +51,7 @@ func main() {
 			if strings.HasSuffix(p.PkgPath, "/keeper") {
 				if obj := p.Types.Scope().Lookup("Keeper"); obj != nil {
 					if st, ok := obj.Type().Underlying().(*types.Struct); ok {
-						rel, _ := filepath.Rel("/repo", m)
+						rel, _ := filepath.Rel(repo, m)
 						for i := 0; i < st.NumFields(); i++ {
 							f := st.Field(i)
 							ts := types.TypeString(f.Type(), func(pk *types.Package) string { return pk.Name() })
@@ -61,7 +65,7 @@ func main() {
 				if strings.HasSuffix(fn, "_test.go") || strings.HasSuffix(fn, ".pb.go") || strings.HasSuffix(fn, ".pb.gw.go") || strings.Contains(fn, "/mock") {
 					continue
 				}
-				rel, _ := filepath.Rel("/repo", fn)
+				rel, _ := filepath.Rel(repo, fn)
 				scanFile(p, f, rel, counts)
 			}
 		}
